@@ -12,7 +12,13 @@ needing term frequencies, settings given as paths, one sequence over DatabaseAPI
 register_term_frequency_lookup (terms the data lack, values unrelated to the data) mixed with compare_two_records,
 find_matches_to_new_records, compute_tf_table, predict, training, invalidate_cache ... WITHOUT a normalising predict() after every
 step; the output of every new-record / tf-table / deterministic_link call is compared with the same call on a fresh linker and the
-term frequencies in it are recomputed by hand.
+term frequencies in it are recomputed by hand; (e) re-registration histories: a table is replaced under its name THROUGH Splink
+(register_table_predict / register_table(df, name) / register_labels_table / register_table_input_nodes_concat_with_tf /
+register_term_frequency_lookup with overwrite=True, a second Linker over new frames on the same DatabaseAPI) and the computations derived
+from it run before and after the replacement; every derived output is compared with the same call on a fresh linker that has the
+CURRENT tables registered, and results kept from before must still read as they were.  The replacement re-draws the salt of the hashed
+table names (repair 4551b8fa): the trace replay (b) codes the n-th salt as the model's uid n and emits a `resalt` event (Lean
+Cache.resalt / Cache.reregister, theorem C07.reregistration_reflects_new_data).
 """
 from __future__ import annotations
 
@@ -94,20 +100,37 @@ def trace_request(events, phys):
     def code(x):
         return codes.setdefault(x, len(codes))
 
-    # the DatabaseAPI's uid never changes (model uid = 0); tables the caller registered get a foreign uid
-    api_uids = {e["uid"] for e in events if e["k"] == "req"}
-    if len(api_uids) > 1:
-        raise core.HarnessError(f"the DatabaseAPI cache uid changed during a history: {api_uids}")
-    uid_codes: dict = {u: 0 for u in api_uids}
-    uid_codes["user"] = 1
+    # The DatabaseAPI's uid is the salt of the hashed physical names.  It is re-drawn whenever a table is replaced under its name
+    # (register_multiple_tables(..., overwrite=True) -> _forget_results_computed_from).  The model's uid is a counter (0, then +1 per
+    # `resalt`), so the n-th distinct salt seen in a request is coded n and a `resalt` event is emitted in front of the first request
+    # that shows it (nothing between the real re-draw and that request depends on the salt: named stores, drops, forget_named and
+    # invalidate events carry their own identities).  A table created under an older salt keeps its (templ, text, old salt) identity
+    # when it is dropped or stored under a name later.  Tables that no request produced (the caller registered them) get uid codes
+    # from a range that no counter value reaches.
+    FOREIGN = 10 ** 6
+    salt_codes: dict = {}
+    foreign_codes: dict = {}
+
+    def uid_code(u):
+        if u in salt_codes:
+            return salt_codes[u]
+        return FOREIGN + foreign_codes.setdefault(u, len(foreign_codes))
+
     out, hits = [], []
     known = dict(phys)
+    current = None
     for e in events:
         k = e["k"]
         if k == "req":
             if e.get("debug"):
                 return None, None  # debug mode bypasses the cache protocol
-            uid_codes.setdefault(e["uid"], len(uid_codes))
+            if e["uid"] != current:
+                if e["uid"] in salt_codes:
+                    raise core.HarnessError(f"the DatabaseAPI cache uid went back to an earlier value during a history: {e['uid']}")
+                salt_codes[e["uid"]] = len(salt_codes)
+                if current is not None:
+                    out.append({"k": "resalt"})
+                current = e["uid"]
             out.append({"k": "req", "templ": code("T:" + e["templ"]), "text": code("S:" + e["text"]), "use_cache": bool(e["use_cache"])})
             hits.append(bool(e["hit"]))
         elif k == "set_named":
@@ -115,18 +138,16 @@ def trace_request(events, phys):
             if ph is None:
                 # a table the caller registered (not produced by a request): give it a private identity
                 ph = (e["phys"], "user:" + e["phys"], "user")
-            out.append({"k": "set_named", "templ": code("T:" + e["templ"]), "ptempl": code("T:" + ph[0]), "ptext": code("S:" + ph[1]),
-                        "puid": uid_codes.setdefault(ph[2], len(uid_codes))})
+            out.append({"k": "set_named", "templ": code("T:" + e["templ"]), "ptempl": code("T:" + ph[0]), "ptext": code("S:" + ph[1]), "puid": uid_code(ph[2])})
         elif k == "drop":
             ph = known.get(e["phys"])
             if ph is None:
                 continue
-            out.append({"k": "drop", "templ": code("T:" + ph[0]), "text": code("S:" + ph[1]), "uid": uid_codes.setdefault(ph[2], len(uid_codes))})
+            out.append({"k": "drop", "templ": code("T:" + ph[0]), "text": code("S:" + ph[1]), "uid": uid_code(ph[2])})
         elif k == "forget_named":
             out.append({"k": "forget_named", "templ": code("T:" + e["templ"])})
         elif k == "invalidate":
             out.append({"k": "invalidate"})
-    # the model's uid is a counter starting at 0 and incremented by invalidate: uid codes were assigned in order of first use
     return {"op": "cache_trace", "events": out}, hits
 
 
@@ -469,7 +490,262 @@ def run_newrec(case: dict) -> dict:
     return {"steps": steps, "events": [dict(e) for e in log["events"]], "phys": {k: list(v) for k, v in log["phys"].items()}}
 
 
+# --------------------------------------------------------------------------- (e) re-registration histories, outputs observed
+# Family: a table is REPLACED under its name through Splink - register_table_predict / register_table(df, <fixed name>) /
+# register_labels_table / register_table_input_nodes_concat_with_tf / register_term_frequency_lookup with overwrite=True, or a second
+# Linker over new frames on the same DatabaseAPI (Splink re-registers __splink__input_table_<i> with overwrite=True) - and computations
+# derived from the table run before AND after the replacement (the SAME call repeated).  Results are cached under a hash of SQL text
+# that names the tables it reads but says nothing about their content, so the second result must not be the first one served again.
+# Oracle: the output of every derived computation equals the same call on a fresh linker (new database, current data, saved model,
+# the tables currently registered, registered in the same order); results the caller kept from before a replacement must still read as
+# they were; predict() is compared with the fresh linker after every replacement of an input and at the end.
+REREG_TARGETS = {
+    "predict": ("register_predict", ["cluster_registered", "cluster_registered", "best_links_registered", "graph_metrics_registered"]),
+    "labels": ("register_labels", ["accuracy_labels_table", "accuracy_labels_table", "prediction_errors_labels_table", "estimate_m_pairwise_labels"]),
+    "user_table": ("register_user_table", ["blocking_analysis_user_table"]),
+    "concat_with_tf": ("register_concat_with_tf", ["predict", "cluster_registered"]),
+    "input": ("relink", ["predict", "cluster_registered", "accuracy_labels_table", "compute_tf"]),
+    "tf_lookup": ("register_tf_lookup", ["predict", "compute_tf"]),
+}
+REREG_NOISE = ["predict", "predict_thr", "estimate_u", "em", "compute_tf", "cluster", "deterministic_link", "compare_two", "find_matches", "estimate_prior",
+               "invalidate", "delete_splink_tables"]
+REREG_FORCE_PREDICT_CHECK = ("relink", "register_concat_with_tf", "register_tf_lookup")
+
+
+def gen_rereg_case(rng):
+    world = H.gen_world(rng)
+    world["input_form"] = "frame"
+    world["link_type"] = rng.choice(["dedupe_only", "link_and_dedupe", "link_and_dedupe"])
+    ids = [r["unique_id"] for r in world["rows"]]
+    if world["link_type"] != "dedupe_only":
+        world["first_table_ids"] = ids[: rng.randint(2, len(ids) - 2)]
+    tfcols = tf_columns(world)
+    serial = [0]
+
+    def make(op):
+        if op in H.REREG_OPS:
+            st = H.gen_rereg_step(rng, world, op, ids=list(ids))
+            if op == "relink":
+                serial[0] += 1
+                st["p"]["new_row"]["unique_id"] = 700 + serial[0]
+                ids.append(700 + serial[0])  # later registered predictions / labels may mention the new record
+            return [st]
+        return H.gen_history(rng, world, length=1, ops=[op])  # [] when the operation does not apply (no TF column)
+
+    targets = [t for t in REREG_TARGETS if t != "tf_lookup" or tfcols]
+    weights = {"predict": 4, "labels": 4, "input": 3, "concat_with_tf": 2, "user_table": 2, "tf_lookup": 1}
+    chosen = []
+    for _ in range(rng.choice([1, 2, 2])):
+        t = rng.choices(targets, [weights[t] for t in targets])[0]
+        if t not in chosen:
+            chosen.append(t)
+    segments = []
+    needs = {"cluster_registered": "predict", "best_links_registered": "predict", "graph_metrics_registered": "predict", "accuracy_labels_table": "labels",
+             "prediction_errors_labels_table": "labels", "estimate_m_pairwise_labels": "labels"}
+    front = []
+    for t in chosen:
+        reg, calls = REREG_TARGETS[t]
+        calls = [c for c in calls if c != "best_links_registered" or world["link_type"] != "dedupe_only"]  # it needs a source dataset column
+        seg = [] if t == "input" else make(reg)  # the linker's own inputs are the first version
+        mine = []
+        for c in rng.sample(sorted(set(calls)), rng.randint(1, min(2, len(set(calls))))):
+            mine += make(c)
+            if needs.get(c, t) not in chosen and REREG_TARGETS[needs[c]][0] not in [x["op"] for x in front]:
+                front += make(REREG_TARGETS[needs[c]][0])  # the table the derived call runs on, registered once at the start
+        seg += mine
+        for _ in range(rng.choice([1, 1, 1, 2])):
+            seg += make(reg)  # the replacement
+            seg += [json.loads(json.dumps(x)) for x in mine]  # the SAME calls again
+            if rng.random() < 0.3:
+                seg += make(rng.choice(calls))
+        segments.append(seg)
+    # riffle the segments (each keeps its own order), then sprinkle unrelated operations
+    hist = []
+    while any(segments):
+        seg = rng.choice([x for x in segments if x])
+        hist.append(seg.pop(0))
+    for op in [rng.choice(REREG_NOISE) for _ in range(rng.choice([0, 1, 1, 2]))]:
+        for st in make(op):
+            hist.insert(rng.randrange(len(hist) + 1), st)
+    hist = front + hist
+    if rng.random() < 0.5:
+        hist = H.gen_history(rng, world, length=1, ops=["predict", "estimate_u", "em", "compute_tf"]) + hist
+    first = True
+    for st in hist:
+        if st["op"].startswith("register_") and "overwrite" in st["p"] and st["op"] != "register_tf_lookup":
+            if first and rng.random() < 0.5:
+                st["p"]["overwrite"] = rng.choice([False, None])  # nothing to replace yet: the default must do
+            first = False
+        st["check_predict"] = st["op"] in REREG_FORCE_PREDICT_CHECK or rng.random() < 0.15
+    hist[-1]["check_predict"] = True
+    return {"world": world, "history": hist, "tag": "rereg"}
+
+
+def diff_tables(a, b, what_b="fresh linker"):
+    """Two canonical result tables (lists of dict rows) agree up to float rounding and row order."""
+    if len(a) != len(b):
+        return f"{len(a)} rows (after the history) vs {len(b)} rows ({what_b})"
+
+    def same(x, y):
+        if set(x) != set(y):
+            return False
+        for k in x:
+            u, v = x[k], y[k]
+            if isinstance(u, bool) or isinstance(v, bool):
+                if u is None or v is None or bool(u) != bool(v):
+                    return False
+            elif isinstance(u, float) or isinstance(v, float):
+                if not core.close(u, v, 1e-9, 1e-12):
+                    return False
+            elif u != v:
+                return False
+        return True
+
+    if all(same(x, y) for x, y in zip(a, b)):
+        return None
+    left = list(b)
+    for x in a:
+        k = next((i for i, y in enumerate(left) if same(x, y)), None)
+        if k is None:
+            near = min(left, key=lambda y: sum(1 for c in x if x.get(c) != y.get(c))) if left else {}
+            cols = sorted(c for c in set(x) | set(near) if x.get(c) != near.get(c))[:4]
+            return (f"row {json.dumps({c: x.get(c) for c in list(x)[:3]}, default=str)} (after the history) has no counterpart ({what_b}); "
+                    f"nearest differs in {cols}: {[x.get(c) for c in cols]} vs {[near.get(c) for c in cols]}")
+        left.pop(k)
+    return None
+
+
+def rereg_fresh(linker, world, state, model=None):
+    """A linker without history: new database, current data, the saved model, and the tables the caller currently has registered,
+    registered in the order of their last registration."""
+    from harness import impl
+
+    model = model if model is not None else json.loads(json.dumps(linker.misc.save_model_to_json(out_path=None)))
+    l2 = H.make_linker(dict(world, rows=H.current_rows(world, state)), impl.make_api(world["engine"], threads=2), settings=model)
+    st2: dict = {"registered": []}
+    for _kind, st in state.get("registered", []):
+        H.apply_op(l2, world, st, st2)
+    return l2, st2
+
+
+def _raised_in_repo():
+    import traceback
+
+    return f'File "{core.REPO}/' in traceback.format_exc()
+
+
+def run_rereg(case: dict) -> dict:
+    from harness import impl
+
+    world, hist = case["world"], case["history"]
+    api = impl.make_api(world["engine"], threads=2)
+    log = H.instrument(api)
+    linker = H.make_linker(world, api)
+    state: dict = {"registered": []}
+    steps = []
+    for step in hist:
+        op = step["op"]
+        rec = {"op": op}
+        observed = op in H.REREG_OBSERVED_OPS
+        model_before = json.loads(json.dumps(linker.misc.save_model_to_json(out_path=None))) if op == "estimate_m_pairwise_labels" else None
+        try:
+            mine = H.apply_op(linker, world, step, state)
+        except Exception as e:  # noqa: BLE001
+            if not _raised_in_repo():
+                raise
+            rec["raised"] = f"{type(e).__name__}: {str(e)[:200]}"
+            steps.append(rec)
+            break  # a raising call is C08's business; this history ends here
+        linker = state.get("linker", linker)
+        if observed and mine is None:
+            rec["skipped"] = "nothing registered (or no source dataset column) to run it on"
+        elif observed:
+            rec["n_rows"] = len(mine)
+            try:
+                l2, st2 = rereg_fresh(linker, world, state, model_before)
+                ref = H.apply_op(l2, world, step, st2)
+            except Exception as e:  # noqa: BLE001
+                if not _raised_in_repo():
+                    raise
+                d = f"the call succeeded after the history but raised on the fresh linker: {type(e).__name__}: {str(e)[:160]}"
+            else:
+                d = diff_tables(mine, ref)
+            rec["reference"] = "fresh"
+            if d:
+                rec["diff"] = f"{op} after the history differs from the same call on a fresh linker with the tables now registered: " + d
+                steps.append(rec)
+                break
+        kept_bad = None
+        for label, sdf, rows in state.get("kept", []):
+            rec["kept_reread"] = rec.get("kept_reread", 0) + 1
+            try:
+                now = H.canon_table(sdf.as_record_dict())
+            except Exception as e:  # noqa: BLE001
+                if not _raised_in_repo():
+                    raise
+                kept_bad = f"the result of an earlier {label} (table {sdf.physical_name}) can no longer be read after {op}: {type(e).__name__}: {str(e)[:120]}"
+                break
+            d = diff_tables(now, rows, what_b="as it read when it was returned")
+            if d:
+                kept_bad = f"the result of an earlier {label} (table {sdf.physical_name}) kept by the caller changed under it after {op}: " + d.replace("(after the history)", "(now)")
+                break
+        if kept_bad:
+            rec["diff"] = kept_bad
+            steps.append(rec)
+            break
+        if linker._settings_obj._probability_two_random_records_match in (0, 0.0, 1, 1.0):
+            rec["excluded"] = "degenerate prior"  # as in (a): every scoring call then raises loudly; the history ends here
+            steps.append(rec)
+            break
+        if step.get("check_predict"):
+            mine_p = H.predict_rows(linker)
+            rec["n_pairs"] = len(mine_p)
+            d = diff_predict(mine_p, H.predict_rows(rereg_fresh(linker, world, state)[0]))
+            if d:
+                rec["diff"] = d
+                steps.append(rec)
+                break
+        steps.append(rec)
+    return {"steps": steps, "events": [dict(e) for e in log["events"]], "phys": {k: list(v) for k, v in log["phys"].items()}}
+
+
+REREG_KIND_OF = {"cluster_registered": ("predict", "input", "concat_with_tf"), "best_links_registered": ("predict", "input", "concat_with_tf"), "graph_metrics_registered": ("predict",),
+                 "accuracy_labels_table": ("labels", "input", "concat_with_tf", "tf_lookup"), "prediction_errors_labels_table": ("labels", "input", "concat_with_tf", "tf_lookup"),
+                 "estimate_m_pairwise_labels": ("labels", "input", "concat_with_tf"), "blocking_analysis_user_table": ("user_table",),
+                 "predict": ("input", "concat_with_tf", "tf_lookup"), "compute_tf": ("input", "concat_with_tf", "tf_lookup")}
+REREG_REG_KIND = {"register_predict": "predict", "register_labels": "labels", "register_user_table": "user_table", "register_concat_with_tf": "concat_with_tf",
+                  "relink": "input", "register_tf_lookup": "tf_lookup"}
+
+
+def rereg_shape(hist):
+    """Counters: which derived call was repeated (identical arguments) after a replacement of a table it is computed from."""
+    shapes = set()
+    n_reg: dict = {}
+    seen: dict = {}
+    for st in hist:
+        op = st["op"]
+        if op in REREG_REG_KIND:
+            n_reg[REREG_REG_KIND[op]] = n_reg.get(REREG_REG_KIND[op], 0) + 1
+            continue
+        if op not in REREG_KIND_OF:
+            continue
+        key = op + json.dumps(st["p"], sort_keys=True)
+        if key in seen:
+            for kind in REREG_KIND_OF[op]:
+                first = 1 if kind == "input" else 2  # the linker's own inputs are version 1; a registered table is replaced by its 2nd registration
+                if n_reg.get(kind, 0) >= first and n_reg.get(kind, 0) > seen[key].get(kind, 0):
+                    shapes.add(f"{op} repeated after replacing {kind}")
+        seen[key] = dict(n_reg)
+    return shapes
+
+
+def is_rereg(case):
+    return "rereg" in (case.get("tag") or "")  # "rereg", or a corpus case "corpus-rereg-..."
+
+
 def run_case(case: dict) -> dict:
+    if is_rereg(case):
+        return run_rereg(case)
     return run_newrec(case) if case.get("tag") == "newrec" else run_history(case)
 
 
@@ -629,6 +905,9 @@ def op_labels(hist):
 def classify(what):
     for pat, cls in [("with the SQL cache", "realtime compare_records differs with its SQL cache"),
                      ("differs from the hand computation", "term frequency given to a new record differs from the registered lookup / data frequency (hand computation)"),
+                     ("differs from the same call on a fresh linker with the tables now registered", "a computation derived from a table re-registered through Splink (overwrite=True / a new Linker on the same DatabaseAPI) differs from a fresh linker"),
+                     ("kept by the caller changed under it", "a result kept by the caller changed after a later operation"),
+                     ("can no longer be read after", "a result kept by the caller changed after a later operation"),
                      ("differs from every fresh linker", "compare_two_records / find_matches_to_new_records / compute_tf_table / deterministic_link after a history differs from a fresh linker"),
                      ("(after the history)", "predict() after a history differs from a fresh linker"),
                      ("pair sets differ", "predict() after a history differs from a fresh linker"), ("raised", "operation raised")]:
@@ -655,10 +934,24 @@ def run(ctx: core.Ctx):
         "by the record > registered lookup (NULL for a missing term) > data frequency count/total (compare_two_records: or NULL when nothing computed it yet - documented); (2) the whole output (all columns) "
         "equals the same call on a fresh linker (new database, current data, saved model, same lookups); for compare_two_records and TF columns WITHOUT a lookup the fresh linker is tried with "
         "compute_tf_table() called for each subset of those columns (availability of data-derived frequencies is the only documented history dependence); "
+        "(e) 40 re-registration histories (thorough: 700), frames as input (dedupe_only / link_and_dedupe over two frames), duckdb+sqlite: a table is REPLACED under its name through Splink - "
+        "register_table_predict(new predictions, overwrite=True); a labels table under a fixed name via register_table(df, name, overwrite=True) (passed by name or as the returned SplinkDataFrame) or "
+        "register_labels_table(..., overwrite=True); register_table_input_nodes_concat_with_tf(table computed by a throw-away linker, possibly cut short, overwrite=True); register_term_frequency_lookup(..., "
+        "overwrite=True); an own table registered by name for the blocking-analysis functions; a second Linker over new frames (one more record) on the SAME DatabaseAPI, which re-registers "
+        "__splink__input_table_<i> - and the computations derived from it (cluster_pairwise_predictions_at_threshold [probability / weight / no threshold], cluster_using_single_best_links, compute_graph_metrics on "
+        "the registered predictions; accuracy_analysis_from_labels_table, prediction_errors_from_labels_table, estimate_m_from_pairwise_labels on the labels; count_comparisons / cumulative_comparisons / "
+        "n_largest_blocks on the own table; predict, compute_tf_table) run before AND after each replacement with identical arguments (1-2 replacements per table, 1-2 tables per history, riffled), "
+        "0-2 unrelated operations (predict, training, compare_two_records, find_matches, cluster, invalidate_cache, delete_tables) in between; first registration with overwrite False/default/True; "
+        "oracle for (e): every derived output (all columns) equals the same call on a fresh linker (new database, current data, saved model - for estimate_m the model saved BEFORE the call and the values "
+        "estimated by that call -, the tables currently registered, registered in the same order); every result table the caller keeps (last 3) is read again after every later step and must read as it did "
+        "(until invalidate_cache / delete_tables drop it); predict() is compared with the fresh linker after every replacement of an input and at the end; "
         "non-trivial = history with >= 3 steps that reuses a cached table (at least one hit) / any realtime case; distinct = hash of the case."
     )
     ctx.assumptions = [
-        "one linker per DatabaseAPI; input data change only together with invalidate_cache(); registered TF lookups are part of the linker's inputs and are given to the fresh reference linker too",
+        "one linker at a time per DatabaseAPI (a second Linker REPLACES the first one's inputs, family (e)); input data change behind Splink's back only together with invalidate_cache(), or THROUGH Splink "
+        "(a table re-registered under its name with overwrite=True, a new Linker over new frames: no invalidate_cache() needed since repair 4551b8fa); registered tables (TF lookups, predictions, labels, "
+        "concat_with_tf) are part of the linker's inputs and are given to the fresh reference linker too",
+        "the hash salt of the DatabaseAPI (re-drawn at every replacement) does not repeat within a run; the replayed trace codes the n-th salt as the model's uid n",
         "sha256-based physical names are collision free on a run (HashInj)",
         "a history ends at the first raising call (failure atomicity is C08)",
     ]
@@ -676,6 +969,7 @@ def run(ctx: core.Ctx):
         cases += [realtime_case(rng) for _ in range(ctx.budget(6, 60))]
         cases += [realtime_case(rng, extended=True) for _ in range(ctx.budget(4, 40))]
         cases += [gen_newrec_case(rng) for _ in range(ctx.budget(60, 900))]
+        cases += [gen_rereg_case(rng) for _ in range(ctx.budget(40, 700))]
     hist_cases = [c for c in cases if "seqs" not in c]
     rt_cases = [c for c in cases if "seqs" in c]
     res = core.pmap(run_case_safe, hist_cases, chunksize=1)
@@ -690,8 +984,32 @@ def run(ctx: core.Ctx):
         ctx.case({"world": c["world"], "history": c["history"]}, len(r["steps"]) >= 3 and hits >= 1,
                  sample={"history": [s["op"] for s in c["history"]], "engine": c["world"]["engine"], "steps": r["steps"], "n_cache_events": len(r["events"])} if len(c["history"]) <= 4 else None)
         ctx.count("engine", c["world"]["engine"]); ctx.count("history_length", len(c["history"]))
-        fam = "newrec (outputs observed)" if c.get("tag") == "newrec" else "predict after every step"
+        fam = "newrec (outputs observed)" if c.get("tag") == "newrec" else "re-registration (outputs observed)" if is_rereg(c) else "predict after every step"
         ctx.count("family", fam)
+        salts = []
+        for e in r["events"]:
+            if e["k"] == "req" and e["uid"] not in salts:
+                salts.append(e["uid"])
+        ctx.count("salt_changes_in_history", max(0, len(salts) - 1) if len(salts) <= 5 else ">4")
+        if is_rereg(c):
+            done = c["history"][: len(r["steps"])]
+            ctx.count("rereg_link_type", c["world"]["link_type"])
+            for sh in rereg_shape(done) or ["(no call repeated after a replacement)"]:
+                ctx.count("rereg_shape", sh)
+            for st, s in zip(done, r["steps"]):
+                ctx.count("rereg_op", st["op"])
+                if st["op"] in H.REREG_REGISTER_OPS and "overwrite" in st["p"]:
+                    ctx.count("rereg_overwrite_arg", f"{st['op']}: {st['p']['overwrite']}")
+                if st["op"] == "register_labels":
+                    ctx.count("rereg_labels_form", st["p"]["form"])
+                if "reference" in s:
+                    ctx.count("rereg_reference_matched", f"{s['op']}: same call on a fresh linker")
+                if "skipped" in s:
+                    ctx.count("rereg_skipped", f"{s['op']}: {s['skipped']}")
+                if "kept_reread" in s:
+                    ctx.count("rereg_kept_results_reread", "result kept from an earlier step read again", s["kept_reread"])
+                if "n_pairs" in s:
+                    ctx.count("rereg_predict_checkpoints", "predict() compared with a fresh linker")
         if c.get("tag") == "newrec":
             for sh in newrec_shape({"world": c["world"], "history": c["history"][: len(r["steps"])]}) or ["(none of the lookup-term-absent shapes)"]:
                 ctx.count("newrec_shape", sh)
@@ -704,7 +1022,8 @@ def run(ctx: core.Ctx):
                 elif st["op"] == "register_tf_lookup":
                     ctx.count("newrec_lookup_overwrite_arg", st["p"].get("overwrite"))
         for s in r["steps"]:
-            ctx.count("newrec_op" if c.get("tag") == "newrec" else "op", s["op"])
+            if not is_rereg(c):
+                ctx.count("newrec_op" if c.get("tag") == "newrec" else "op", s["op"])
             if "reference" in s:
                 ctx.count("newrec_reference_matched", f"{s['op']}: {s['reference']}")
             if "n_pairs" in s and c.get("tag") == "newrec":
